@@ -170,6 +170,8 @@ pub enum Node {
 /// Names asked for by `GetParam`; the agent runs with the route parameters `id` and `zone`.
 pub const PARAM_NAMES: [&str; 3] = ["id", "zone", "missing"];
 pub const PARAM_ZONE: &str = "north";
+/// The one key the `keys` handler of the demand-map lane reports to a syncing remote.
+pub const SYNC_KEY: i32 = 1;
 
 pub fn combine2(a: i64, b: i64) -> i64 {
     a.wrapping_mul(3).wrapping_add(b)
@@ -244,6 +246,8 @@ pub enum Event {
     OnCue,
     /// `on_cue_key(dm0)`.
     OnCueKey,
+    /// `keys(dm0)` (never has a tree: it reports the fixed key set).
+    Keys,
 }
 
 impl Event {
@@ -252,7 +256,7 @@ impl Event {
         match self {
             Event::Start | Event::Stop | Event::Command(_) | Event::Timer(_) => Lane::Cmd.order(),
             Event::OnCue => Lane::Dem.order(),
-            Event::OnCueKey => Lane::DemMap.order(),
+            Event::OnCueKey | Event::Keys => Lane::DemMap.order(),
             Event::Command2 => Lane::Cmd2.order(),
             Event::OnEvent(i) | Event::OnSet(i) => Lane::Val(i).order(),
             Event::OnUpdate(i) | Event::OnRemove(i) | Event::OnClear(i) => Lane::Map(i).order(),
@@ -273,6 +277,8 @@ pub struct Program {
     pub param_id: i64,
     /// The program uses node kinds of the extension (a fraction of the programs).
     pub ext: bool,
+    /// The program cues keys of the demand-map lane (so a remote may also sync that lane).
+    pub cues_keys: bool,
 }
 
 impl Program {
@@ -372,6 +378,8 @@ pub enum Ev {
     OnTimer { id: u64 },
     OnCue,
     OnCueKey { key: i32 },
+    /// The `keys` handler of the demand-map lane ran (a remote syncs).
+    Keys,
     /// The handler produced by the `on_done` callback of `open_lane` started.
     LaneOpened { node: NodeId },
     /// What the function of `and_then_contextual` read from the agent when it was applied.
@@ -416,6 +424,7 @@ impl Ev {
             Ev::OnTimer { .. } => "on_timer",
             Ev::OnCue => "on_cue",
             Ev::OnCueKey { .. } => "on_cue_key",
+            Ev::Keys => "keys",
             Ev::LaneOpened { .. } => "lane_opened",
             Ev::CtxRead { .. } => "contextual_read",
             Ev::EffectItem { .. } => "side_effects",
@@ -460,7 +469,7 @@ impl Ev {
     pub fn is_trigger(&self) -> bool {
         matches!(
             self,
-            Ev::OnEvent { .. } | Ev::OnSet { .. } | Ev::OnUpdate { .. } | Ev::OnRemove { .. } | Ev::OnClear { .. } | Ev::Command2 { .. } | Ev::OnCue | Ev::OnCueKey { .. }
+            Ev::OnEvent { .. } | Ev::OnSet { .. } | Ev::OnUpdate { .. } | Ev::OnRemove { .. } | Ev::OnClear { .. } | Ev::Command2 { .. } | Ev::OnCue | Ev::OnCueKey { .. } | Ev::Keys
         )
     }
 }
@@ -785,6 +794,7 @@ pub fn gen_program(rng: &mut Rng) -> Program {
         debug_assert!(prog.nodes.len() - before <= MAX_NODES + 2 * MAX_DEPTH as usize);
         prog.table.insert(ev, root);
     }
+    prog.cues_keys = prog.any_node(|n| matches!(n, Node::CueKey(_)));
     prog
 }
 
@@ -793,6 +803,12 @@ fn gen_input(rng: &mut Rng, prog: &Program, lane: Option<Lane>) -> Input {
     // sync request is received".
     if prog.ext && (lane == Some(Lane::Dem) || (lane.is_none() && rng.chance(1, 16))) {
         return Input::Sync(Lane::Dem);
+    }
+    // A sync request for the demand-map lane ("`keys`: triggers each time a downlink attempts to
+    // sync with the lane", then `on_cue_key` "once for each defined key"): only in programs that
+    // cue keys themselves (their inputs are sent one at a time, see `needs_settled_inputs`).
+    if prog.cues_keys && (lane == Some(Lane::DemMap) || (lane.is_none() && rng.chance(1, 8))) {
+        return Input::Sync(Lane::DemMap);
     }
     let lane = lane.unwrap_or_else(|| match rng.below(100) {
         0..=69 => Lane::Cmd,
